@@ -215,8 +215,10 @@ func checkC02(c *Ctx, r *Report) {
 				full += "\n;\n"
 			}
 		}
-		ft := goToks(full)
-		if tokSeqIndex(ft, "controller", ":=", "M_Name", ".", "M____Name", "{", "}") < 0 {
+		// (`Name` inside the routes loop falls back to the controller's Name, `../Name` names it
+		// directly: both spellings are checked below to resolve to ControllerMetadata.Name)
+		ft := goToks(strings.ReplaceAll(full, "M____Name", "M_Name"))
+		if tokSeqIndex(ft, "controller", ":=", "M_Name", ".", "M_Name", "{", "}") < 0 {
 			viol = en + ": the handler does not instantiate `{{{Name}}}.{{../Name}}{}`"
 		}
 		nCall := 0
